@@ -240,6 +240,7 @@ DIRECTED_URLS = ["\x00http://example.com", "\x01\x02 http://www.example.com/x", 
                  "http://example.com/a/b/../c?utm_source=1&z=2&a=1#!/route", "http://example.com/%7Efoo?é=%C3%A9#frag", "HTTP://EXAMPLE.COM:80/A", "http://example.com./x", "http://www.m.example.com/", "http://example.com/../x/y", "http://example.com/a/../../b?q=1", "http://münchen.de/x", "http://xn--mnchen-3ya.de/x",
                  "git://www.example.com/repo.git", "ssh://fr.example.com/x", "ftp://m.example.co.uk/a/", "wss://www.example.com:443/s", "custom://amp.example.com/x", "rtmp://WWW.Example.COM/live",
                  "http://www.x.co.uk.fr/a", "http://fr.shop.com.au.com/x?b=1", "http://a.com/?url=HTTP://B.com", "http://a.com/?URL=HTTPS%3A%2F%2FWWW.B.ORG%2FX", "HTTP://A.COM/?NEXT=/HOME", "a.fr/login?next=/home",
+                 "http://a.com/?u\nrl=http%3A%2F%2Fb.org%2Fp", "http://l.example.com/l.php?u=\r\nhttps%3A%2F%2Fb.org%2Fx", "http://cdn.ampproject\x00.org/c/s/b.com/p", "http://a.com/r?url=ht\ttp://b.org/", "http://www.google.com/u\x85rl?q=http://b.org",
                  "http://xn--amp--epa.fr/x", "http://straße.de/Straße?ß=ẞ", "straße.de", "http://r.example.net/out?url=http%3A%2F%2Fstra%C3%9Fe.de%2Fx", "http://ΟΔΌΣ.GR/ΟΔΌΣ", "οδός.gr/x", "http://amp-é.fr/x", "httpbin.org/get", "https.example.org/x", "http2.golang.org", "httpd.apache.org/docs?x=1", "ftp.example.org/x", "HTTP.example.org", "www.example.co.uk/page?src=ftp://files.example.org/x", "example.com?x=1", "example.com#f"]
 DIRECTED_HOSTS = ["fr.facebook.com", "fr-FR.facebook.com", "www.lemonde.fr", "m.example.co.uk", "amp-x.example.com", "amp.example.com", "xn--tlrama-bvab.fr", "TÉLÉRAMA.fr", " Example.COM ",
                   "fr.example.com.au", "de.co.uk", "co.uk", "com", "us.fr.example.com", "www.fr.example.com", "fr.www.example.com", "en-us.example.com", "localhost", "1.2.3.4", "forum-m.example.com",
